@@ -349,6 +349,11 @@ def c14(ctx):
                           dict(kind="opts", ast=j["ast"], ng=j["ng"], pat=j["pat"], got=j))
     if nvac:
         raise ToolError("size-limit fixture is vacuous: the tiny limit does not reject the piece alone")
+    # backtrack_limit(L) as documented: a search that needs B backtracks succeeds iff L >= B (TraceLimits runs VM.tla on the real program for
+    # every limit; the same machinery as C07 on a sample of the contexts x fillers)
+    cf = read_ndjson(pats("ctxfill", 0))
+    t3 = texts("sig6", 3)
+    vmp.run_limits(ctx, "opts_limits", vmp.with_cells(ctx.rng, renumber_ids(sample(ctx, cf, 200 if ctx.quick else 1200)), t3, 3 if ctx.quick else 6), t3)
     ctx.exhaustive = False
     ctx.assumptions = ["Options.tla: case_insensitive(true) == (?i) prefix; a host is rejected under a size limit iff its big delegated piece alone is"]
     return "model_checking"
@@ -386,7 +391,8 @@ def c18(ctx):
     # 3. stress
     t2 = texts("sig6", 2)
     corpus = sample(ctx, read_ndjson(pats("ctxfill", 0)), 150 if ctx.quick else 600) + sample(ctx, read_ndjson(pats("plain", 3)), 60 if ctx.quick else 300) \
-        + sample(ctx, read_ndjson(pats("condctx", 0)), 40 if ctx.quick else 200)
+        + sample(ctx, read_ndjson(pats("condctx", 0)), 40 if ctx.quick else 200) \
+        + sample(ctx, [r for n in (1, 2, 3) for r in read_ndjson(pats("iter", n)) if '"cont"' in json.dumps(r["ast"])], 60 if ctx.quick else 300)   # \\G: depends on the search offset
     corpus = renumber_ids(corpus)
     d = common.workdir("C18")
     af = os.path.join(d, "corpus.asts.ndjson")
